@@ -45,7 +45,10 @@ import (
 
 func init() {
 	gens["c13hist.fresh"] = r3GenFresh
-	if len(os.Args) >= 6 && os.Args[1] == "c13freshq" {
+	subcmds["c13freshq"] = func() {
+		if len(os.Args) < 6 {
+			os.Exit(2)
+		}
 		sub, _ := strconv.ParseUint(os.Args[2], 10, 64)
 		fSilenceLogs()
 		w := bufio.NewWriter(os.Stdout)
@@ -55,6 +58,9 @@ func init() {
 			os.Exit(2)
 		}
 		world, _ := r3FreshWorld(newRng(sub))
+		if os.Getenv("VERIF_DEBUG_FRESH") != "" {
+			fmt.Fprintln(os.Stderr, "WORLD "+world.describe())
+		}
 		for _, l := range r3ChildAnswer(world, &spec, os.Args[4]) {
 			fmt.Fprintln(w, l)
 		}
@@ -296,6 +302,7 @@ func r3RunChild(self string, sub uint64, scen int, mode string, spec *r3Spec, in
 		ctx, cancel := context.WithTimeout(context.Background(), 120*time.Second)
 		defer cancel()
 		cmd := exec.CommandContext(ctx, self, "c13freshq", strconv.FormatUint(sub, 10), strconv.Itoa(scen), mode, string(js))
+		cmd.Env = append(os.Environ(), "VERIF_GEN_FAMILY=c13hist.fresh")
 		var so, se bytes.Buffer
 		cmd.Stdout, cmd.Stderr = &so, &se
 		if err := cmd.Run(); err != nil {
